@@ -24,6 +24,7 @@ var propPkgs = map[string][]string{
 	"C07": {"./internal/index"},
 	"C15": {"./internal/index/converters"},
 	"C14": {"./internal/query"},
+	"C03": {"./internal/query"},
 }
 
 type Finding struct {
